@@ -215,3 +215,66 @@ Proof.
   split; [apply words_okb_ok; reflexivity|].
   vm_compute. intuition congruence.
 Qed.
+
+(** * widened (b), continued: against the other readers of the package - Get1 (get.go), Rank64 (rank.go) *)
+From Low Require Import Model.Rank Model.BitmapNextReaders Proofs.NextCount.
+
+(** the position NextOne returns reads 1 with Get1 and every position it stepped over reads 0;
+    -1 means that every position of the range reads 0 *)
+Theorem C13_NextOne_Get1 : forall bm, words_ok bm -> forall i e r,
+  0 <= i <= e -> e <= 64 * zlen bm -> i < 64 * zlen bm ->
+  NextOne bm i e = Some r -> r <> -1 ->
+  i <= r < e /\ Get1 bm r = Some 1 /\ forall p, i <= p < r -> Get1 bm p = Some 0.
+Proof. exact NextOne_Get1. Qed.
+Print Assumptions C13_NextOne_Get1.
+
+Theorem C13_NextOne_none_Get1 : forall bm, words_ok bm -> forall i e,
+  0 <= i <= e -> e <= 64 * zlen bm -> i < 64 * zlen bm ->
+  NextOne bm i e = Some (-1) -> forall p, i <= p < e -> Get1 bm p = Some 0.
+Proof. exact NextOne_none_Get1. Qed.
+Print Assumptions C13_NextOne_none_Get1.
+
+Theorem C13_PrevOne_Get1 : forall bm, words_ok bm -> forall i e r,
+  0 <= i <= e -> e <= 64 * zlen bm -> i < 64 * zlen bm -> 1 <= e ->
+  PrevOne bm i e = Some r -> r <> -1 ->
+  i <= r < e /\ Get1 bm r = Some 1 /\ forall p, r < p < e -> Get1 bm p = Some 0.
+Proof. exact PrevOne_Get1. Qed.
+Print Assumptions C13_PrevOne_Get1.
+
+(** the bundle the harness runs ([bitmap.Next/Get1]) *)
+Theorem C13_NextGet1 : forall bm, words_ok bm -> forall i e, 0 <= i < e -> e <= 64 * zlen bm ->
+  let sn := spec_NextOne bm i e in
+  let sp := spec_PrevOne bm i e in
+  NextGet1 bm i e = Some [sn; if sn =? -1 then -1 else 1; sp; if sp =? -1 then -1 else 1].
+Proof. exact NextGet1_exact. Qed.
+Print Assumptions C13_NextGet1.
+
+(** the number of 1-bits of a range is a difference of ranks, so a walk of [i, end) with NextOne (or PrevOne)
+    takes exactly [Rank64(end) - Rank64(i)] rounds (rank.go's index, C01's model) *)
+Theorem C13_walk_count_Rank64 : forall bm, words_ok bm -> forall tr i e l ri bi re be,
+  0 <= i <= e -> e < 64 * zlen bm ->
+  IterNext bm i e = Some l ->
+  Rank64 bm (IndexRank64 bm tr) i = Some (ri, bi) -> Rank64 bm (IndexRank64 bm tr) e = Some (re, be) ->
+  zlen l = re - ri.
+Proof. exact IterNext_count_Rank64. Qed.
+Print Assumptions C13_walk_count_Rank64.
+
+(** the bundle the harness runs ([bitmap.Next/count]) *)
+Theorem C13_WalkCount : forall bm, words_ok bm -> forall tr i e, 0 <= i <= e -> e < 64 * zlen bm ->
+  let c := zlen (ones_in bm i e) in
+  WalkCount bm tr i e = Some [c; c; c].
+Proof. exact WalkCount_exact. Qed.
+Print Assumptions C13_WalkCount.
+
+Example C13_readers_nonvacuous :
+  words_ok [2^63 + 1; 0; 6] /\
+  NextGet1 [2^63 + 1; 0; 6] 1 131 = Some [63; 1; 130; 1] /\
+  NextGet1 [2^63 + 1; 0; 6] 64 129 = Some [-1; -1; -1; -1] /\
+  Get1 [2^63 + 1; 0; 6] 63 = Some 1 /\ Get1 [2^63 + 1; 0; 6] 62 = Some 0 /\
+  WalkCount [2^63 + 1; 0; 6] true 1 131 = Some [3; 3; 3] /\
+  WalkCount [2^63 + 1; 0; 6] false 0 191 = Some [4; 4; 4] /\
+  Rank64 [2^63 + 1; 0; 6] (IndexRank64 [2^63 + 1; 0; 6] false) 131 = Some (4, 0).
+Proof.
+  split; [apply words_okb_ok; reflexivity|].
+  vm_compute. intuition congruence.
+Qed.
